@@ -251,3 +251,24 @@ package casketfile
 //@ func (*parser).closeCurlyBrace
 //@   pure reads Dispenser
 //@   requires p != nil
+
+//@ unit snippet_names frames=on props=C10 verify_pure=on filter=`casketfile\.parser\)\.isSnippet$`
+//@ // C10 "a snippet is imported under the name it was defined with": a block is a snippet exactly when its single key is
+//@ // wrapped in one pair of parentheses, and its name is that key without exactly that pair - inner parentheses belong to
+//@ // the name (`((common))` is the snippet `(common)`, distinct from `(common)`)
+//@ extern strings.HasPrefix
+//@   pure
+//@   ensures len(prefix) == 1 ==> result == (len(s) >= 1 && s[0] == prefix[0])
+//@ extern strings.HasSuffix
+//@   pure
+//@   ensures len(suffix) == 1 ==> result == (len(s) >= 1 && s[len(s)-1] == suffix[0])
+//@ extern strings.TrimSuffix
+//@   pure
+//@   ensures (len(suffix) == 1 && len(s) >= 1 && s[len(s)-1] == suffix[0]) ==> result == s[:len(s)-1]
+//@ define key0() string = p.block.Keys[0]
+//@ func (*parser).isSnippet
+//@   pure reads parser, E:string
+//@   requires p != nil
+//@   ensures [single_key_in_one_pair_of_parentheses] result0 == (len(p.block.Keys) == 1 && len(key0()) >= 2 && key0()[0] == '(' && key0()[len(key0())-1] == ')')
+//@   ensures [name_is_the_key_without_exactly_that_pair] result0 ==> (len(result1) == len(key0()) - 2 && forall(i, 0, len(result1), result1[i] == key0()[i+1]))
+//@   ensures [no_name_otherwise] !result0 ==> result1 == ""
